@@ -228,6 +228,10 @@ pub fn promote_locals(
         return Ok(false);
     }
 
+    // Blocks that cannot be reached from the entry are not in the dominator tree, so the walk below
+    // would not give their branches the arguments of the PHIs it inserts. Remove them first.
+    let mut modified = super::simplify_cfg::remove_dead_blocks(context, &function)?;
+
     let po: &PostOrder = analyses.get_analysis_result(function);
     let dom_tree: &DomTree = analyses.get_analysis_result(function);
     let dom_fronts: &DomFronts = analyses.get_analysis_result(function);
@@ -279,7 +283,7 @@ pub fn promote_locals(
     let mut value_replacement = FxHashMap::<Value, Value>::default();
     let mut delete_insts = Vec::<(Block, Value)>::new();
 
-    let mut modified = record_rewrites(
+    modified |= record_rewrites(
         context,
         &function,
         dom_tree,
